@@ -163,7 +163,8 @@ class Harness:
         if cp.get('vec') is None: return int(cp.get('default', 16))
         vec = cp['vec']
         n = nl + 3 if cp.get('plus3', True) else nl
-        return [int(vec[l % len(vec)]) for l in range(n)]
+        lst = [int(vec[l % len(vec)]) for l in range(n)]
+        return lst if cp.get('dtype', 'list') == 'list' else np.array(lst, dtype=cp['dtype'])
 
     def a_ctrl(self):
         ac = self.case.get('actrl')
@@ -405,6 +406,7 @@ class Harness:
             self.permute_rows(rp)
             self._permuted = True
         k = cfg.get('k', batch.get('k'))
+        if cfg.get('k_only_batches') is not None and bno not in cfg['k_only_batches']: k = batch.get('k')
         seed = int(cfg.get('seed', batch.get('seed', 1)))
         mon.k_lanes = int(k) if k else None
         self.level_no = 0
